@@ -11,6 +11,9 @@
 (*   elem-vary in every SEQUENCE-valued extension, each element gets n siblings of its own kind    *)
 (*             (same leading OID or tag) with other content from the corpus vocabulary, behind or  *)
 (*             in front of the originals: the same statement / policy / access method twice        *)
+(*   str-blank every character string inside an extension value (a notice text, a state or province *)
+(*             of an identifier, a qualifier) made blank (n = 1) or given a trailing blank (n = 2):  *)
+(*             what a rule that trims, compares or measures text meets                             *)
 (*   san-case  n dNSNames, the first in upper case and repeated verbatim as common name (a list    *)
 (*             of 3 or 5 entries leaves spare capacity in the parsed slice: in-place edits show)    *)
 EXTENDS KeyUsage, TLC, Json
@@ -28,7 +31,8 @@ SetToSeq(S) == LET RECURSIVE B(_)
 KuEku == {[r |-> "kueku", ku |-> SetToSeq(k), ekus |-> s, ok |-> Consistent(k, s)] : k \in (SUBSET Bits) \ {{}}, s \in EkuLists}
 Others == {[r |-> rr, n |-> n] : rr \in {"san-vary", "dup-ext", "rdn-vary"}, n \in {2, 3}} \cup
           {[r |-> "elem-vary", n |-> n] : n \in {1, 2}} \cup
-          {[r |-> "san-case", n |-> n] : n \in {3, 5}}
+          {[r |-> "san-case", n |-> n] : n \in {3, 5}} \cup
+          {[r |-> "str-blank", n |-> n] : n \in {1, 2}}
 Init == x = 0
 Next == UNCHANGED x
 Spec == Init /\ [][Next]_x
